@@ -23,6 +23,21 @@ def FilledExactly (before after : Int → Bool) (bits stride : Int) (bpp : Nat) 
     (InRect bits stride bpp x y w h (i / bpp) → after i = value.testBit (i % bpp).toNat) ∧
     (¬ InRect bits stride bpp x y w h (i / bpp) → after i = before i)
 
+/-- `after` is the destination `before` with exactly the rectangle copied from `src` (another
+buffer): bits outside the destination rectangle are what they were; a bit of destination row `r`
+(that no later row of the rectangle overlaps — always so when `|dstride| * 32 ≥ w * bpp`) is the
+bit at the same position of source row `r` -/
+def CopiedExactly (src before after : Int → Bool) (sbits sstride dbits dstride : Int) (bpp : Nat)
+    (sx sy dx dy : Int) (w h : Nat) : Prop :=
+  ∀ i : Int,
+    (¬ InRect dbits dstride bpp dx dy w h (i / bpp) → after i = before i) ∧
+    (∀ r : Nat, r < h →
+      (rowStart dbits dstride bpp dx dy r ≤ i / bpp ∧ i / bpp < rowStart dbits dstride bpp dx dy r + w) →
+      (∀ r' : Nat, r < r' → r' < h →
+        ¬ (rowStart dbits dstride bpp dx dy r' ≤ i / bpp ∧
+            i / bpp < rowStart dbits dstride bpp dx dy r' + w)) →
+      after i = src (i + (rowStart sbits sstride bpp sx sy r - rowStart dbits dstride bpp dx dy r) * bpp))
+
 /-- byte address `a` belongs to one of `h` rows of `len` bytes starting at `start r` -/
 def InByteRows (start : Nat → Int) (len h : Nat) (a : Int) : Prop :=
   ∃ r : Nat, r < h ∧ start r ≤ a ∧ a < start r + len
